@@ -31,8 +31,12 @@ CaseOf(st) ==
      THEN [mode |-> "shared", imports |-> IF imps = <<>> THEN <<Shared(st, 10, <<116>>)>> ELSE imps, locals |-> <<>>,
            forest |-> Forest(st, 60),
            \* the writer is also used for two batches: Finish after the first `split` values (0 = one batch)
-           split |-> IF R(st, 3) % 3 = 0 THEN R(st, 4) % Len(Forest(st, 60)) ELSE 0]
+           split |-> IF R(st, 3) % 3 = 0 THEN R(st, 4) % Len(Forest(st, 60)) ELSE 0,
+           foreign |-> R(st, 5) % 2 = 1]
      ELSE [mode |-> "fixed", imports |-> imps, locals |-> RandSyms(st, 40), forest |-> Forest(st, 60),
-           split |-> IF R(st, 3) % 3 = 0 THEN R(st, 4) % Len(Forest(st, 60)) ELSE 0]
+           split |-> IF R(st, 3) % 3 = 0 THEN R(st, 4) % Len(Forest(st, 60)) ELSE 0,
+           \* the tokens handed to the writer also carry a symbol ID from some other table (as tokens copied from a
+           \* Reader do); the writer must go by the text
+           foreign |-> R(st, 5) % 2 = 1]
 ASSUME ndJsonSerialize(OutFile, [i \in 1..Len(Streams) |-> CaseOf(Streams[i].s)])
 =============================================================================
